@@ -66,6 +66,8 @@ def call_builtin(I, name, args, kwargs, env):
             return x
         if isinstance(x, SSeq):
             return x
+        if isinstance(x, SStr) and not x.is_concrete():
+            return x        # the character list of a run-length string (consumed by [0], ''.join, len)
         return list(I.iterate(x))
     if name == 'tuple':
         if not args:
@@ -200,7 +202,7 @@ def call_builtin(I, name, args, kwargs, env):
         raise Unsupported('type()')
     if name == 'filter':
         fn, xs = args
-        if isinstance(xs, SStr) or isinstance(xs, SSeq):
+        if (isinstance(xs, SStr) and not xs.is_concrete()) or isinstance(xs, SSeq):
             return I.loops.filter_(I, fn, xs)
         out = []
         for x in I.iterate(xs):
